@@ -64,6 +64,16 @@ CHECKS = {
    text="For every failing thrift.Binary call (skip, scalar/string/header readers, message-begin) on the C03/C08 hostile inputs TLC derives the admissible cause set from the reference grammar/decoder and requires the ProtocolException type id to name it (invalid data for truncation/unknown types, negative size, bad version, depth limit); for stream readers/skippers whose only admissible cause is truncation it requires errors.Is(err, source error) for io.EOF, io.ErrUnexpectedEOF and a custom injected error, delivered with or after the last data.",
    note="Trusted: TLC, errors.As/Is projections in the harness. A negative name length inside message-begin may be reported as invalid data or negative size (both admitted).",
    design="6 C17"),
+ "C06": dict(
+   technique="TLA+ frame layout / reference parser / encoder contract (TTHeader) checked by TLC + TLC-judged encode and decode traces",
+   text="TLC checks that every admissible frame of a bounded parameter domain (entry orders, ACL token, every padding residue) parses back to its parameters with the computed info size. Parameter sets (flags, sequence ids, supported protocol ids, int/str maps incl. the ACL key, arbitrary bytes, every padding residue, info sizes stepping by 1 across the 65536 limit, 64KiB-scale values) go through EncodeToBytes and Encode over a stream writer, then DecodeFromBytes/Decode over bytes and fragmenting stream readers with a payload behind the header; TLC checks: error iff info size > 65536, layout, size field, written = header length = consumed, Parse(frame) = params, payload-length arithmetic, IsTTHeader/IsStreaming.",
+   note="Trusted: TLC, content-verified segment projection, recording sink/source. nil and empty decoded maps are identified. Unsupported protocol ids are outside the property's quantifier (the encoder accepts them, the decoder rejects them).",
+   design="6 C06"),
+ "C10": dict(
+   technique="TLA+ reference parser (TTHeader.Parse, MaxConsume) checked by TLC over all size fields/flags/ids + TLC-judged decode traces of hostile frames",
+   text="TLC evaluates the reference parser on all 65536 size fields x {body present, short, absent}, all flags, protocol ids, info ids, transform counts and magic words. The same families (quick: strided) plus random section orders, repeated sections, interleaved padding, zero counts, size fields cutting into sections and every truncation/perturbation of valid frames are decoded by DecodeFromBytes, Decode over a bytes reader and Decode over fragmenting stream readers; each must succeed exactly when Parse does with the same maps, HeaderLen = 14 + declared, PayloadLen = total + 4 - HeaderLen, and never consume more than min(14 + declared, len).",
+   note="Trusted: TLC, segment projection (zero runs as {z:n}), recording source.",
+   design="6 C10"),
 }
 NOT_YET = "check not built yet in this revision of /verif (work in progress; see DESIGN.md section 6 for the plan)"
 
